@@ -1,6 +1,9 @@
 /- driver glue for the vnadata model: line protocol `vd <slot> <op> <args…>` -/
 import Libvna.Model.VDataStep
 import Libvna.Model.Scalar
+import Libvna.Model.VConvert
+import Libvna.Model.ConvN
+import Libvna.Gen.Conv2Table
 open Libvna Libvna.VD
 
 namespace Libvna.Drv
@@ -12,6 +15,30 @@ def zeroW := "0000000000000000"
 def cfg : Cfg VV FF :=
   { zero := zeroW ++ " " ++ zeroW, z50 := "4049000000000000 " ++ zeroW, fzero := zeroW,
     fneg := fun s => match floatOfHex? s with | some x => x < 0.0 | none => false }
+
+def vToCF (v : VV) : CF :=
+  match v.splitOn " " with
+  | [a, b] => match floatOfHex? a, floatOfHex? b with
+    | some x, some y => ⟨x, y⟩
+    | _, _ => ⟨0, 0⟩
+  | _ => ⟨0, 0⟩
+
+/-- the numeric conversion functions: generated two-port text and the n-port models, on IEEE doubles -/
+def convFn : ConvFn VV := fun fn cells z0 n =>
+  let cs := cells.map vToCF
+  let zs := z0.map vToCF
+  let junk : CF := ⟨12345.0, -54321.0⟩
+  let two : Option (List CF) :=
+    match cs, zs with
+    | [a, b, c', d], [z1, z2] => Libvna.Gen.conv2Call fn false ⟨a, b, c', d⟩ ⟨z1, z2⟩ ⟨junk, junk, junk, junk⟩ ⟨junk, junk⟩
+    | _, _ => none
+  let r : List CF :=
+    match two with
+    | some r => r
+    | none => match Libvna.ConvN.call CF.abs CF.conj CF.sqa fn cs.toArray zs.toArray n with
+      | some r => r.toList
+      | none => []
+  r.map cfToHex
 
 abbrev VSlots := List (Option (VData VV FF))
 
@@ -112,6 +139,14 @@ def stepVd (ss : VSlots) (args : List String) : VSlots × String :=
           if x ≥ 1 then (setSlot ss i (some { s with fprec := x.toNat }), "ok cb=0/0") else (ss, "fail EINVAL cb=1/0")
         | "set_dprecision", _, [some x] =>
           if x ≥ 1 then (setSlot ss i (some { s with dprec := x.toNat }), "ok cb=0/0") else (ss, "fail EINVAL cb=1/0")
+        | "convert", _, [some dst, some t] =>
+          if dst < 0 ∨ dst ≥ 8 then (ss, "bad-op") else
+          if dst.toNat = i then upd (s.convertInPlace cfg convFn t)
+          else match (ss[dst.toNat]?).join with
+            | none => (ss, "bad-op")
+            | some o =>
+              let p := s.convertInto cfg convFn o t
+              (setSlot ss dst.toNat (some p.1), resLine p.2 fun _ => "")
         | "digest", [], _ => (ss, digest s)
         | _, _, _ => (ss, "bad-op")
   | _ => (ss, "bad-op")
